@@ -191,6 +191,29 @@ func (fi *FnInfo) scan() {
 						// nested store into a local: still only affects the local
 					}
 				}
+			case ssa.CallInstruction:
+				// the address of a local handed to a call: the callee may write it
+				for k, a := range x.Common().Args {
+					al := allocBehind(a)
+					if al == nil {
+						continue
+					}
+					if _, boxed := a.(*ssa.MakeInterface); boxed {
+						fi.allocEsc[al] = true // Decode(&x), Unmarshal(&x), Scan(&x)
+						continue
+					}
+					callee := x.Common().StaticCallee()
+					if callee == nil || !inModule(callee) || origin(callee).Blocks == nil {
+						if callee != nil && externalPure[callee.String()] {
+							continue
+						}
+						fi.allocEsc[al] = true
+						continue
+					}
+					if paramWritten(origin(callee), k, 0) {
+						fi.allocEsc[al] = true
+					}
+				}
 			case *ssa.MakeClosure:
 				cf, _ := x.Fn.(*ssa.Function)
 				for i, bnd := range x.Bindings {
@@ -1024,4 +1047,85 @@ func (fi *FnInfo) reachingStore(u *ssa.UnOp, a *ssa.Alloc) ssa.Value {
 		idx = len(b.Instrs)
 	}
 	return nil
+}
+
+// allocBehind: v is the address of a local (possibly boxed into an interface).
+func allocBehind(v ssa.Value) *ssa.Alloc {
+	for i := 0; i < 4; i++ {
+		switch x := v.(type) {
+		case *ssa.Alloc:
+			return x
+		case *ssa.MakeInterface:
+			v = x.X
+		case *ssa.ChangeType:
+			v = x.X
+		case *ssa.ChangeInterface:
+			v = x.X
+		default:
+			return nil
+		}
+	}
+	return nil
+}
+
+var paramWrittenCache = map[string]bool{}
+
+// paramWritten: does fn (or a module callee it forwards the parameter to) store through its k-th
+// parameter?
+func paramWritten(fn *ssa.Function, k int, depth int) bool {
+	if k >= len(fn.Params) || depth > 3 {
+		return true
+	}
+	key := fn.String() + "#" + string(rune('0'+k))
+	if v, ok := paramWrittenCache[key]; ok {
+		return v
+	}
+	paramWrittenCache[key] = false
+	prm := fn.Params[k]
+	res := false
+	var derived func(v ssa.Value, d int) bool
+	derived = func(v ssa.Value, d int) bool {
+		if v == ssa.Value(prm) {
+			return true
+		}
+		if d > 6 {
+			return false
+		}
+		switch x := v.(type) {
+		case *ssa.FieldAddr:
+			return derived(x.X, d+1)
+		case *ssa.IndexAddr:
+			return derived(x.X, d+1)
+		}
+		return false
+	}
+	for _, b := range fn.Blocks {
+		for _, in := range b.Instrs {
+			switch x := in.(type) {
+			case *ssa.Store:
+				if derived(x.Addr, 0) {
+					res = true
+				}
+			case ssa.CallInstruction:
+				for j, a := range x.Common().Args {
+					if a != ssa.Value(prm) {
+						continue
+					}
+					cal := x.Common().StaticCallee()
+					if cal == nil || !inModule(cal) || origin(cal).Blocks == nil {
+						if cal != nil && (externalPure[cal.String()] || strings.HasPrefix(cal.String(), "fmt.") || isSinkOnly(cal.String())) {
+							continue
+						}
+						res = true
+						continue
+					}
+					if paramWritten(origin(cal), j, depth+1) {
+						res = true
+					}
+				}
+			}
+		}
+	}
+	paramWrittenCache[key] = res
+	return res
 }
